@@ -12,6 +12,7 @@ import (
 	"go/ast"
 	"go/token"
 	"path/filepath"
+	"strconv"
 	"strings"
 )
 
@@ -378,6 +379,53 @@ func genLock(repo, out string) {
 	b.WriteString("def lockLock (nodes now : Int) (isLocked : Bool) (requested lockTime : Int) : Bool × Int × Int :=\n" + body + "\n\n")
 	fmt.Fprintf(&b, "def numLockUnknown : Nat := %d\n\nend Esc.Gen\n", total)
 	writeIfChanged(filepath.Join(out, "Lock.lean"), b.String())
+}
+
+// genTaintTime: k8s.GetToBeRemovedTime (pkg/k8s/taint.go), with the two range constants read from the source
+func genTaintTime(repo, out string) {
+	f := parse(filepath.Join(repo, "pkg/k8s/taint.go"))
+	cs := map[string]string{} // integer constants of the file, a leading minus included
+	for _, d := range f.Decls {
+		if gd, ok := d.(*ast.GenDecl); ok && gd.Tok == token.CONST {
+			for _, sp := range gd.Specs {
+				vs := sp.(*ast.ValueSpec)
+				for i, n := range vs.Names {
+					if i < len(vs.Values) {
+						v := strings.ReplaceAll(srcOf(vs.Values[i]), " ", "")
+						if _, err := strconv.ParseInt(v, 10, 64); err == nil {
+							cs[n.Name] = v
+						}
+					}
+				}
+			}
+		}
+	}
+	var b strings.Builder
+	b.WriteString("/- GENERATED by /verif/extract from /repo/pkg/k8s/taint.go (GetToBeRemovedTime) — do not edit. -/\nimport Esc.Gen.Arith\nnamespace Esc.Gen\n\n")
+	a := &ar{fn: "taintTime"}
+	body := "  (true, true, (0 : Int)) -- not found"
+	fd := findFunc(f, "GetToBeRemovedTime")
+	if fd != nil && fd.Body != nil && fd.Type.Params != nil && len(fd.Type.Params.List) == 1 && len(fd.Type.Params.List[0].Names) == 1 {
+		x := fd.Type.Params.List[0].Names[0].Name
+		a.atoms = map[string][2]string{}
+		for _, c := range []string{"minTaintUnixTime", "maxTaintUnixTime"} {
+			if v, ok := cs[c]; ok {
+				a.atoms[c] = [2]string{"(" + v + " : Int)", "I"}
+			}
+		}
+		a.callAtoms = map[string][][2]string{
+			"GetToBeRemovedTaint(" + x + ")":        {{"", ""}, {"hasEsc", "B"}},
+			"strconv.ParseInt(taint.Value, 10, 64)": {{"v", "I"}, {"parseErr", "B"}},
+		}
+		a.markInert(fd.Body.List, map[string]bool{})
+		body = a.block(fd.Body.List, env{}, "  ")
+	} else {
+		a.unknown++
+	}
+	b.WriteString("/-- `GetToBeRemovedTime`: (no time is returned, an error is returned, the Unix second of the time returned). `hasEsc`:\n    `GetToBeRemovedTaint` finds the taint; `parseErr` / `v`: what `strconv.ParseInt(value, 10, 64)` returns. -/\n")
+	b.WriteString("def taintTime (hasEsc parseErr : Bool) (v : Int) : Bool × Bool × Int :=\n" + body + "\n\n")
+	fmt.Fprintf(&b, "def numTaintTimeUnknown : Nat := %d\n\nend Esc.Gen\n", a.unknown)
+	writeIfChanged(filepath.Join(out, "TaintTime.lean"), b.String())
 }
 
 func genReap(repo, out string) {
